@@ -244,11 +244,16 @@ def run_case(case):
                     extra = await peer.no_more_replies(20.0)
                     if not extra:
                         viol.append({"clause": "stray-reply", "subject": subject, "detail": f"an extra reply arrived after the follow-up: {peer.replies[-1]}"})
-                except (PeerGone, ReplyTimeout) as e:
+                except (PeerGone, ReplyTimeout, ConnectionError) as e:
+                    # (ConnectionRefusedError: the passive listener announced before the ABOR is gone)
                     viol.append({"clause": "session-unusable-after-abor", "subject": subject, "detail": f"follow-up failed with {type(e).__name__}; transcript tail {peer.transcript[-4:]}"})
             peer.close()
             await asyncio.sleep(10)
-            await asyncio.wait_for(server.close(), 1000)
+            try:
+                await asyncio.wait_for(server.close(), 1000)
+            except asyncio.TimeoutError:
+                # the aborted session can no longer be torn down: it is not "continuing normally"
+                viol.append({"clause": "session-unusable-after-abor", "subject": subject, "detail": f"after the ABOR exchange (replies {codes}) and the client's disconnect, Server.close() did not complete within 1000 virtual seconds"})
 
         world.run(main())
         gc.collect()
